@@ -133,9 +133,30 @@ def is_handle_agg(v, names):
 def arc_clone_of_self_internal(v):
     if v[0] == 'call' and v[2] == 'std::clone::Clone::clone' and v[3]:
         a = v[3][0]
-        if a[0] in ('ref', 'rawptr') and a[1][0] == 'pfield' and a[1][2] == 'internal' and a[1][1] == ('deref', ('param', 1)):
+        if a[0] in ('ref', 'rawptr') and a[1][0] == 'pfield' and a[1][2] == 'internal' and a[1][1] in (('deref', ('param', 1)), ('local', 1)):
             return True
     return False
+
+
+def mentions_self(v, depth=0):
+    if v in (('param', 1), ('local', 1)):
+        return True
+    if isinstance(v, tuple) and depth < 12:
+        return any(mentions_self(x, depth + 1) for x in v if isinstance(x, tuple))
+    return False
+
+
+def arc_moved_out_of_self(v):
+    """v == ptr::read(&self.internal) (self by value, possibly behind a ManuallyDrop wrapper)"""
+    if v[0] == 'call' and v[2] == 'std::ptr::read' and v[3]:
+        a = v[3][-1]
+        if a[0] in ('ref', 'rawptr') and a[1][0] == 'pfield' and a[1][2] == 'internal' and mentions_self(a):
+            return True
+    return False
+
+
+def by_value_conversions(ctx):
+    return [k for k, s, _ in conversions(ctx) if not s.startswith('&')]
 
 
 @rule('L2', ['C12', 'C09'], 'Clone family: guarded +1 on the own side, exactly one same-side handle over Arc::clone(&self.internal)')
@@ -194,7 +215,8 @@ def constructors(ctx):
 
 @rule('L3', ['C12', 'C08'], 'handles come into existence only in clone bodies, conversions and the channel constructors')
 def l3(ctx):
-    allowed = {k for _, _, k in clone_bodies(ctx)} | {c[0] for c in constructors(ctx)}
+    # by-value conversions may rebuild the handle around the same Arc; L4 pins down the exact forms and their count effect
+    allowed = {k for _, _, k in clone_bodies(ctx)} | {c[0] for c in constructors(ctx)} | set(by_value_conversions(ctx))
     n = 0
     for key, b in ctx.facts.bodies.items():
         for bi, blk in enumerate(b.blocks):
@@ -205,13 +227,6 @@ def l3(ctx):
                     ctx.instance('%s builds %s' % (key, s['rv']['name']))
                     if not fam.allowed_for(ctx, key, allowed):
                         ctx.violate(key, None, 'a %s handle is constructed outside the clone family / channel constructors (count not adjusted)' % s['rv']['name'], at=s.get('at'), sig='construct:' + canon(s['rv']['name']))
-    # a handle must never be forgotten / wrapped in ManuallyDrop inside the crate: its Drop is what keeps the count right
-    for key, b in ctx.facts.bodies.items():
-        for bb, t in b.all_calls():
-            fn = t.get('fn')
-            if fn and canon(fn['path']) in ('std::mem::forget', 'std::mem::ManuallyDrop::new', 'std::mem::ManuallyDrop::take') and any(
-                    any((hh + '<') in a for hh in fam.HANDLES) for a in fn['args']):
-                ctx.violate(key, None, 'a channel handle is forgotten (%s): its count is never given back' % canon(fn['path']), at=t.get('at'), sig='forget-handle')
     for name, sh, rh, bounded in constructors(ctx):
         b = ctx.body(name)
         if b is None:
@@ -235,6 +250,42 @@ def l3(ctx):
                                 ok = len(a) == 2 and a[0] == ('const', 'bool', '0')
             if not ok:
                 ctx.violate(name, p, 'constructor does not return (sender over Arc::clone(internal), receiver over internal) of one ChannelInternal::new(%s, ..): %s' % (str(bounded).lower(), fmt(r)))
+
+
+@rule('L7', ['C05', 'C01', 'C12', 'C11', 'C06', 'C09'], 'a handle is never forgotten (its Drop gives the count back and releases its Arc reference), except by a by-value conversion that moves that reference into the handle it returns')
+def l7(ctx):
+    conv = set(by_value_conversions(ctx))
+    n = 0
+    for key, b in ctx.facts.bodies.items():
+        for bb, t in b.all_calls():
+            fn = t.get('fn')
+            if not fn:
+                continue
+            nme = canon(fn['path'])
+            if nme in ('std::mem::forget', 'std::mem::ManuallyDrop::new', 'std::mem::ManuallyDrop::take', 'std::mem::MaybeUninit::new', 'std::boxed::Box::leak', 'std::sync::Arc::into_raw',
+                       'std::sync::Arc::increment_strong_count', 'std::boxed::Box::into_raw'):
+                ctx.oblige(1)
+                n += 1
+                hit = any(any((hh + '<') in a for hh in fam.HANDLES) for a in fn['args']) or any('ChannelInternal' in a and 'Arc<' in a for a in fn['args']) \
+                    or (nme.startswith('std::sync::Arc::') and any('ChannelInternal' in a for a in fn['args']))
+                if not hit:
+                    continue
+                ctx.instance('%s %s' % (key, nme))
+                owners = fam.owners(ctx, key) or {key}
+                if nme in ('std::mem::forget', 'std::mem::ManuallyDrop::new') and owners <= conv:
+                    # legitimate only when the Arc reference of the forgotten handle is the one inside the returned handle
+                    for ck in sorted(owners):
+                        cb = ctx.body(ck)
+                        for p_, evs_ in (ret_paths(ctx, cb) if cb is not None else []):
+                            r_ = p_.ret
+                            inner = r_[3][0] if r_ is not None and r_[0] == 'agg' and r_[1] in fam.HANDLES and len(r_[3]) == 1 else None
+                            fg = [e for e in evs_ if (e.name == 'FORGET' and e.data['val'] == ('param', 1))
+                                  or (e.name == 'CALL' and e.data['callee'] == 'std::mem::ManuallyDrop::new' and e.data['args'] and e.data['args'][-1] == ('param', 1))]
+                            if fg and not (inner is not None and arc_moved_out_of_self(inner)):
+                                ctx.violate(ck, p_, 'the conversion forgets self but returns a handle over %s: the Arc reference held by self is never released, the channel (and whatever is buffered in it) is never freed' % fmt(inner if inner is not None else r_), at=fg[0].at, sig='forget-leaks-arc')
+                    continue
+                ctx.violate(key, None, 'a channel handle / its Arc reference is leaked (%s): the count is never given back or the channel is never freed, so buffered values are never destroyed' % nme, at=t.get('at'), sig='forget-handle')
+    ctx.instance('scan of %d leak-capable calls' % n if n else 'scan (no leak-capable calls on handles)')
 
 
 def conversions(ctx):
@@ -308,12 +359,21 @@ def l4(ctx):
                 continue
             h = handle_of_key(key)
             own = own_field(h)
+            so = short(own)
+            lb = labels(evs)
             wrs = [e for e in evs if e.name == 'WR']
             drops = [e for e in evs if e.name in ('DROP', 'MEMDROP') and e.data['val'] == ('param', 1)]
+            forgets = [e for e in evs if (e.name == 'FORGET' and e.data['val'] == ('param', 1))
+                       or (e.name == 'CALL' and e.data['callee'] == 'std::mem::ManuallyDrop::new' and e.data['args'] and e.data['args'][-1] == ('param', 1))]
             target = dst[:-3]
-            okc = is_handle_agg(r, (target,)) and len(r[3]) == 1 and arc_clone_of_self_internal(r[3][0])
-            if not (okc and len(wrs) == 1 and wrs[0].data['field'] == own and wr_delta(wrs[0], own) == 1 and len(drops) == 1):
-                ctx.violate(key, p, 'conversion is neither a same-side transmute nor clone-then-drop with net count effect zero: %s' % fmt(r))
+            inner = r[3][0] if is_handle_agg(r, (target,)) and len(r[3]) == 1 else None
+            # (b) clone-then-drop: a new reference and a guarded +1, then self is dropped (guarded -1)
+            counted = (len(wrs) == 1 and wrs[0].data['field'] == own and wr_delta(wrs[0], own) == 1 and has(lb, so, 'F')) or (not wrs and has(lb, so, 'T'))
+            form_b = inner is not None and arc_clone_of_self_internal(inner) and counted and len(drops) == 1 and not forgets
+            # (c) move: the one Arc reference of self is moved into the result, self is never dropped, no count access
+            form_c = inner is not None and arc_moved_out_of_self(inner) and len(forgets) == 1 and not drops and not wrs and not any(e.name in ('LOCK', 'TRYLOCK', 'RD') for e in evs)
+            if not (form_b or form_c):
+                ctx.violate(key, p, 'conversion is none of: same-side transmute, clone-then-drop with net count effect zero, move of the Arc with self forgotten: %s' % fmt(r))
     # every transmute involving a handle type anywhere in the crate is one of these
     for key, b in ctx.facts.bodies.items():
         for blk in b.blocks:
